@@ -3,6 +3,7 @@ findings, replay files, evidence (DESIGN.md 2.4, 2.7, 3)."""
 import json
 import os
 import signal
+import threading
 import sys
 import time
 import shutil
@@ -78,6 +79,7 @@ class Check:
         self.scratch = tlc.scratch_dir("verif-%s-" % pid)
         self.quiet = False
         self.replay_mode = False
+        self._lock = threading.Lock()
 
     def log(self, *a):
         if not self.quiet:
@@ -127,11 +129,32 @@ class Check:
 
     # ------------------------------------------------------------- JUDGE
     def judge(self, module, cfg, traces, label="", env=None, timeout=3600, key_fn=None, heap="4g",
-              count_traces=True):
-        """Batch trace validation: TLC gives one total verdict per recorded execution."""
+              count_traces=True, parallel=1):
+        """Batch trace validation: TLC gives one total verdict per recorded execution.
+        parallel > 1: the batch is cut into that many chunks judged by concurrent TLC processes."""
         if not traces:
             return []
-        path = os.path.join(self.scratch, "%s-%d.json" % (module, len(self.judge_runs)))
+        if parallel > 1 and len(traces) >= 2:
+            parallel = min(parallel, len(traces))
+            from concurrent.futures import ThreadPoolExecutor
+            n = len(traces)
+            cuts = [(i * n) // parallel for i in range(parallel + 1)]
+            chunks = [traces[cuts[i]:cuts[i + 1]] for i in range(parallel)]
+            with ThreadPoolExecutor(max_workers=parallel) as ex:
+                futs = [ex.submit(self._judge_one, module, cfg, ch, "%s/%d" % (label, i), env, timeout, key_fn, heap, count_traces, i)
+                        for i, ch in enumerate(chunks) if ch]
+                res = [f.result() for f in futs]
+            out = []
+            for (vs, off) in zip(res, cuts):
+                for v in vs:
+                    v = dict(v); v["tid"] += off
+                    out.append(v)
+            return out
+        return self._judge_one(module, cfg, traces, label, env, timeout, key_fn, heap, count_traces, 0)
+
+    def _judge_one(self, module, cfg, traces, label, env, timeout, key_fn, heap, count_traces, slot):
+        self._judge_seq = getattr(self, "_judge_seq", 0) + 1
+        path = os.path.join(self.scratch, "%s-%d-%d.json" % (module, self._judge_seq, slot))
         tlc.write_json(path, traces)
         e = {"TRACE_FILE": path}
         if env:
@@ -143,26 +166,27 @@ class Check:
             tail = "\n".join(r.out.splitlines()[-30:])
             raise MachineryError("judge %s gave %d verdicts for %d traces\n%s"
                                  % (module, len(r.verdicts), len(traces), tail))
-        self.states += r.distinct
-        self.transitions += r.generated
-        if count_traces:
-            self.traces += len(traces)
-        verdicts = sorted(r.verdicts, key=lambda v: v["tid"])
-        nviol = ndrift = 0
-        for v in verdicts:
-            tr = traces[v["tid"] - 1]
-            if v["v"].startswith("violation"):
-                nviol += 1
-                self.add_violation(v["v"], tr, v, key_fn(tr, v) if key_fn else None)
-            elif v["v"].startswith("drift"):
-                ndrift += 1
-                if len(self.drift) < 20:
-                    self.drift.append({"verdict": v, "label": label})
-        self.judge_runs.append({"module": module, "cfg": cfg, "label": label, "traces": len(traces),
-                                "violations": nviol, "drift": ndrift, "distinct": r.distinct,
-                                "wall_s": round(r.wall, 2)})
-        self.log("JUDGE %s %s: %d traces, %d violation, %d drift, %d states in %.1fs"
-                 % (module, label, len(traces), nviol, ndrift, r.distinct, r.wall))
+        with self._lock:
+            self.states += r.distinct
+            self.transitions += r.generated
+            if count_traces:
+                self.traces += len(traces)
+            verdicts = sorted(r.verdicts, key=lambda v: v["tid"])
+            nviol = ndrift = 0
+            for v in verdicts:
+                tr = traces[v["tid"] - 1]
+                if v["v"].startswith("violation"):
+                    nviol += 1
+                    self.add_violation(v["v"], tr, v, key_fn(tr, v) if key_fn else None)
+                elif v["v"].startswith("drift"):
+                    ndrift += 1
+                    if len(self.drift) < 20:
+                        self.drift.append({"verdict": v, "label": label})
+            self.judge_runs.append({"module": module, "cfg": cfg, "label": label, "traces": len(traces),
+                                    "violations": nviol, "drift": ndrift, "distinct": r.distinct,
+                                    "wall_s": round(r.wall, 2)})
+            self.log("JUDGE %s %s: %d traces, %d violation, %d drift, %d states in %.1fs"
+                     % (module, label, len(traces), nviol, ndrift, r.distinct, r.wall))
         return verdicts
 
     def add_violation(self, clause, trace, verdict=None, key=None):
